@@ -17,9 +17,11 @@ SCEN = [
     ("call_call_clear", [(1, {}, [["call", 3]])], [(1, {}, [["call", 3]]), (1, {}, [["call", 4]]), (1, {}, [["clear"]])], dict(ops="CCL", vers="111", keys="ABA", warm=("a",))),
     ("srcchange_call_call", [(1, {}, [["call", 3], ["call", 4]])], [(2, {}, [["call", 3]]), (2, {}, [["call", 4]])], None),
     ("threads_call_call_clear", [(1, {}, [["call", 3]])], [(1, {}, [["threads", [[["call", 3], ["call", 5]], [["clear"], ["call", 4]]]]])], None),
+    ("reduce_clear_orphan", [(1, {}, [["call", 3], ["call", 4], ["orphan", "0" * 32, "f" * 32]])], [(1, {}, [["reduce", {"items_limit": 1}]]), (1, {}, [["clear"]])], None),
+    ("reduce_reduce_orphan", [(1, {}, [["call", 3], ["call", 4], ["orphan", "0" * 32, "f" * 32]])], [(1, {}, [["reduce", {"items_limit": 0}]]), (1, {}, [["reduce", {"items_limit": 1}]])], None),
     ("clearall_call", [(1, {}, [["call", 3]])], [(1, {}, [["call", 3], ["call", 4]]), (1, {}, [["clear_all"]])], None),
 ]
-QUICK = {"call_call_same_cold", "call_clear_cold", "call_clear_warm", "call_reduce_warm", "shelve_reduce_warm", "call_call_clear", "threads_call_call_clear", "expires_call_reduce"}
+QUICK = {"call_call_same_cold", "call_clear_cold", "call_clear_warm", "call_reduce_warm", "shelve_reduce_warm", "call_call_clear", "threads_call_call_clear", "expires_call_reduce", "reduce_clear_orphan"}
 
 
 def spec_of(base, k, ver, opts, ops):
@@ -118,6 +120,10 @@ def body(c):
                 for a in range(0, n1 + 1, s1):
                     for b in range(1, n2 + 1, s2):
                         jobs.append((base, sc, sid, [first] * a + [second] * b + [first] * (n1 + 10) + [second] * (n2 + 10), 0)); sid += 1
+            # one pre-emption window at EVERY call: the other participant runs to completion inside it
+            for first, second, n1, n2 in ((A, B, nA, nB), (B, A, nB, nA)):
+                for a in range(0, n1 + 1):
+                    jobs.append((base, sc, sid, [first] * a + [second] * (n2 + 10) + [first] * (n1 + 10), 0)); sid += 1
         for s in range(nrand):
             jobs.append((base, sc, sid, None, c.seed * 1000 + s)); sid += 1
         if mcfg is not None:
